@@ -42,6 +42,10 @@ pub enum Kind {
     /// evaluable: a route-set whose *name* extends the text of another policy's expression
     /// (`RS-P<i>-AS-NOSUCH<j>`): related names, unrelated objects
     GoodNamedAfter(u16, u16, u8),
+    /// an as-set whose members' route queries are answered with `F <text>` (text form k of
+    /// `Db::f_text`): the evaluator logs and skips such answers, whatever the result is it is
+    /// this policy's own business
+    RouteQueryErrors(u8),
 }
 
 impl Kind {
@@ -62,6 +66,7 @@ impl Kind {
             Kind::GoodViaFilterSet(..) => "good-via-filter-set",
             Kind::FilterSetChainToUnknown(_) => "filter-set-chain-to-unknown-as-set",
             Kind::GoodNamedAfter(..) => "good-named-after-another-policy",
+            Kind::RouteQueryErrors(_) => "irr-error-to-route-queries",
         }
     }
 }
@@ -130,6 +135,16 @@ pub fn build(policies: &[Kind]) -> (Vec<Stmt>, Db, Vec<Option<Expr>>) {
             Kind::GoodViaFilterSet(..) => {
                 let n = format!("FLTR-G{i}");
                 db.filter_sets.insert(n.clone(), vec![rs.clone()]);
+                n
+            }
+            Kind::RouteQueryErrors(k) => {
+                let n = format!("AS-RQ{i}");
+                let asn = 65100 + i as u32;
+                db.as_sets.insert(n.clone(), vec![format!("AS{asn}")]);
+                db.routes.insert(asn, (vec!["192.0.2.0/24".into()], vec!["2001:db8::/32".into()]));
+                db.errors.insert(format!("AS{asn}/g"), Answer::Other);
+                db.errors.insert(format!("AS{asn}/6"), Answer::Other);
+                db.f_text = *k;
                 n
             }
             Kind::FilterSetChainToUnknown(d) => {
@@ -203,6 +218,7 @@ fn kind_strategy() -> impl Strategy<Value = Kind> {
         3 => (m(), m()).prop_map(|(a, b)| Kind::GoodViaFilterSet(a, b)),
         3 => (m(), m(), 0u8..9).prop_map(|(a, b, j)| Kind::GoodNamedAfter(a, b, j)),
         2 => (1u8..11).prop_map(Kind::FilterSetChainToUnknown),
+        2 => (0u8..9).prop_map(Kind::RouteQueryErrors),
     ]
 }
 
@@ -216,7 +232,7 @@ impl Prop for C15 {
     }
     fn rule(&self) -> String {
         "2..9 managed policies (some evaluable only through a filter-set, some whose set name extends the text of another policy's expression) of which at least one is valid RPSL but unevaluable (a chain of up to 10 filter-sets ending in an unknown as-set, unknown as-set, \
-         IRR error E/F to the set query, unknown route-set / filter-set, PeerAS, AS-path regular \
+         IRR error E/F to the set query, IRR error F (short, or 400 non-ASCII characters at every alignment) to the route queries of an as-set's members, unknown route-set / filter-set, PeerAS, AS-path regular \
          expression, attribute match, set AND AS-path regexp) at generated positions, run through \
          the agent's real Updater::run with the real evaluator against fake IRRd and fake Junos. \
          Oracle: the run succeeds, a commit is received, and every evaluable policy is installed \
@@ -254,6 +270,14 @@ impl Prop for C15 {
             }
         }
         // an evaluable policy whose set name extends the unevaluable policy's expression text
+        // error answers to the route queries of an as-set's members, in every text form
+        for k in 0u8..9 {
+            for pos in 0..3 {
+                let mut v = vec![Kind::Good(0b101, 0b11), Kind::Good(0b10, 0)];
+                v.insert(pos, Kind::RouteQueryErrors(k));
+                out.push(Case { policies: v, installed_before: false });
+            }
+        }
         for b in [Kind::UnknownAsSet, Kind::IrrError(true), Kind::FilterSetChainToUnknown(2), Kind::PeerAs] {
             for (bad_at, good_refers_to) in [(0usize, 0u8), (2, 2)] {
                 let mut v = vec![Kind::GoodNamedAfter(0b101, 0b11, good_refers_to), Kind::Good(0b10, 0)];
